@@ -33,6 +33,20 @@ def load_known():
         return json.load(f).get("findings", [])
 
 
+def run_extension(ctx, name, fn):
+    """an extension (A-clauses only) runs at the end of a property check: whatever goes wrong inside its driver under a
+    changed library is a difference between model and code (DRIFT), never the verdict of the property and never a crash"""
+    from harness.engine import tlc as T
+
+    try:
+        fn(ctx)
+    except T.MachineryError:
+        raise
+    except Exception as e:  # noqa
+        k = "A.ext.%s.driver_exception.%s" % (name, type(e).__name__)
+        ctx.drift[k] = ctx.drift.get(k, 0) + 1
+
+
 class Ctx(object):
     def __init__(self, pid, tier, seed):
         self.pid = pid
